@@ -14,6 +14,8 @@ def key_fn(case, obs, verdict):
     sub = f[1] if kind in ("ammo", "pfx", "conv") else ""
     site = why[0]
     what = "-".join(why[1:3])[:40]
+    if hostile and what in ("outcome-oom", "outcome-hang", "outcome-crash"):
+        what = "unbounded-allocation"     # memory exhausted or still allocating when the wait ended
     return ":".join(x for x in (kind, sub, "hostile" if hostile else "", site, what) if x)
 
 
